@@ -22,7 +22,8 @@ ASSUMPTIONS = ["faults are injected at the objfun boundary by the recording wrap
 NREF = {"quick": 80, "thorough": 800}
 KINDS = ["nan", "inf", "-inf", "1e200", "raise"]
 FAMILIES = ["plain", "bounded", "scaled", "projections", "soft", "hard", "hard_fresh", "averaging", "regression", "growing", "diagnostics",
-            "throw_on_nan", "diagnostics_soft", "growing_soft", "regression_soft", "growing_hard", "regularised", "regularised_soft"]
+            "throw_on_nan", "diagnostics_soft", "growing_soft", "regression_soft", "growing_hard", "regularised", "regularised_soft",
+            "regularised_projections", "print_progress"]
 CASE_TIMEOUT = {"quick": 600, "thorough": 1800}
 NSAMPLES = 5
 EXHAUSTIVE = True
@@ -93,6 +94,18 @@ def make_cfg(seed, i):
         up["logging.save_poisedness"] = bool(r() < 0.3)
     if fam == "throw_on_nan":
         up["interpolation.throw_error_on_nans"] = True
+    if fam == "print_progress":
+        cfg["args"]["print_progress"] = True        # the progress line formats quantities computed from the (possibly overflowed) model
+        cfg["_extra_kinds"] = ["1e120"]
+    if fam == "regularised_projections":
+        # regulariser AND convex sets: the regularised step and the criticality measure go through their projection branches
+        sets, z, margin = gen.gen_convex_sets(rng, n, nsets=int(rng.integers(1, 3)))
+        cfg["proj"] = sets
+        cfg["lower"] = cfg["upper"] = None
+        cfg["x0"] = (z + 0.3 * margin * rng.normal(size=n) / np.sqrt(n)).tolist()
+        cfg["args"] = dict(rhobeg=float(0.3 * margin), rhoend=float(0.3 * margin * 1e-3), maxfun=14)
+        cfg["reg"] = dict(type=gen.pick(rng, ["l1", "l2"]), lam=float(10.0 ** rng.uniform(-2, 0)))
+        cfg["_extra_kinds"] = ["1e120"]
     if fam in ("regularised", "regularised_soft"):
         # regularised objective (own step solver, own criticality measure): the same single-evaluation faults, plus a value that is
         # finite but overflow-sized for everything computed from it (its square is 1e240; J'J and ||H|| overflow)
